@@ -17,13 +17,21 @@ import (
 // compiled from rewritten sources.
 
 type vfGateWriter struct {
-	lines  []string
-	gated  *bool
-	writes int
+	lines   []string
+	gated   *bool
+	permits *int // non-nil: every write first consumes one permit
+	waiting bool // the writer goroutine is parked waiting for a permit
+	writes  int
 }
 
 func (w *vfGateWriter) Write(p []byte) (int, error) {
-	if w.gated != nil {
+	if w.permits != nil {
+		// one permit per write: the history decides when the writer gets to finish a line
+		w.waiting = true
+		vsched.Block("writer-permit", func() bool { return *w.permits > 0 })
+		w.waiting = false
+		*w.permits--
+	} else if w.gated != nil {
 		vsched.Block("writer-gate", func() bool { return !*w.gated })
 	} else {
 		vsched.Point("write")
@@ -77,7 +85,7 @@ func TestVerif_C39_Sched(t *testing.T) {
 			_ = hook.SetSampleRate(0.5)
 			s4ids = s4ids[:7]
 		}
-		var order []string        // ids in the order their enqueue returned
+		var order []string // ids in the order their enqueue returned
 		beforeClose := map[string]bool{}
 		closeCalled := false
 		res := vsched.Run(x, vsched.Opts{MaxSteps: 4000}, func() {
@@ -187,82 +195,156 @@ func TestVerif_C39_Sched(t *testing.T) {
 			x.Failf(sig+":"+res.Verdict, "%v", res.Blocked)
 			return
 		}
-		// decode what was written
-		type wrec struct {
-			ID      string `json:"id"`
-			Dropped *int64 `json:"dropped_records"`
-		}
-		var written []wrec
-		for _, l := range w.lines {
-			var r wrec
-			if err := json.Unmarshal([]byte(l), &r); err != nil {
-				x.Failf(sig+":bad-json", "line %q: %v", l, err)
-				return
-			}
-			written = append(written, r)
-		}
-		pos := map[string]int{}
-		for i, id := range order {
-			pos[id] = i
-		}
-		seen := map[string]bool{}
-		for _, r := range written {
-			if _, ok := pos[r.ID]; !ok {
-				if scenario == 4 {
-					x.Failf(sig+":sampled-out-record-written", "record %q is sampled out at rate 0.5 but was written", r.ID)
-				} else {
-					x.Failf(sig+":phantom-record", "written record %q was never emitted", r.ID)
-				}
-				return
-			}
-			if seen[r.ID] {
-				x.Failf(sig+":duplicate-record", "record %q written twice", r.ID)
-			}
-			seen[r.ID] = true
-			if r.Dropped != nil && *r.Dropped <= 0 {
-				x.Failf(sig+":nonpositive-dropped", "dropped_records=%d on %q", *r.Dropped, r.ID)
-			}
-		}
-		// Accounting over the records whose emit returned before Close was
-		// called (they all went through the queue, in `order`): at every such
-		// record that was written, the dropped_records stamped so far must equal
-		// the number of earlier such records that were lost. A trailing run of
-		// losses with no later written record is excused by the statement.
-		dropOf := map[string]int64{}
-		for _, r := range written {
-			if r.Dropped != nil {
-				dropOf[r.ID] = *r.Dropped
-			}
-		}
-		var lost, cum int64
-		for _, id := range order {
-			if !beforeClose[id] {
-				continue
-			}
-			if !seen[id] {
-				lost++
-				continue
-			}
-			cum += dropOf[id]
-			if cum != lost {
-				kind := "silent-loss"
-				if cum > lost {
-					kind = "overcount"
-				}
-				x.Failf(sig+":"+kind, "at written record %q: %d earlier enqueued records were lost but dropped_records sums to %d (enqueue order %v, written %v)",
-					id, lost, cum, order, w.lines)
-				break
-			}
-		}
-		var ids []string
-		for _, r := range written {
-			d := ""
-			if r.Dropped != nil {
-				d = fmt.Sprintf("+%d", *r.Dropped)
-			}
-			ids = append(ids, r.ID+d)
+		ids, ok := vfC39Account(x, sig, scenario == 4, order, beforeClose, w.lines)
+		if !ok {
+			return
 		}
 		x.Outcome("s%d q%d order=%v written=%v", scenario, queue, order, ids)
 	})
 	_ = sp
+
+	// Overload histories with a stop-and-go writer. One producer and the real writer goroutine; each
+	// step of a history either enqueues a record (status ok or error) or lets the writer finish
+	// exactly one line. Every history over the alphabet up to the depth bound is run (no
+	// preemption: the writer runs whenever the producer waits for it), then the writer is released,
+	// the hook is closed and the accounting clause is applied. This reaches drop / recover / drop
+	// again sequences that the preemption-bounded space above cannot afford.
+	depth := venum.QT(7, 9)
+	venum.Explore(t, venum.Cfg{Name: "async-stop-and-go-histories", Shardable: true, CheckDeterminism: true}, func(x *venum.X) {
+		queue := 1 + x.Choose(2, "queue")
+		permits := 0
+		w := &vfGateWriter{permits: &permits}
+		hook := NewAccessLogHook(w, "")
+		var order, steps []string
+		beforeClose := map[string]bool{}
+		res := vsched.Run(x, vsched.Opts{MaxSteps: 4000}, func() {
+			if err := hook.SetAsync(queue); err != nil {
+				x.Failf("C39:setasync", "%v", err)
+				return
+			}
+			n := 0
+			for i := 0; i < depth; i++ {
+				switch c := x.Choose(3, fmt.Sprintf("step%d", i)); c {
+				case 0, 1:
+					n++
+					id, status := fmt.Sprintf("r%d", n), "ok"
+					if c == 1 {
+						id, status = fmt.Sprintf("e%d", n), "error"
+					}
+					steps = append(steps, status)
+					hook.emit(map[string]any{"id": id, "status": status})
+					order = append(order, id)
+					beforeClose[id] = true
+				case 2:
+					steps = append(steps, "write")
+					// let the writer reach its permit gate (or go idle) first, then release one line
+					vsched.Settle("writer-settles")
+					if !w.waiting {
+						continue // nothing queued: the writer is idle
+					}
+					target := w.writes + 1
+					permits++
+					vsched.Block("one-line-written", func() bool { return w.writes >= target })
+					vsched.Settle("writer-settles-again")
+				}
+			}
+			permits = 1 << 20
+			_ = hook.Close()
+		})
+		sig := "C39:async:stop-and-go"
+		if res.Verdict == "deadlock" {
+			x.Failf(sig+":enqueue-blocked", "steps %v: %v", steps, res.Blocked)
+			return
+		}
+		if res.Verdict != "" {
+			x.Failf(sig+":"+res.Verdict, "%v", res.Blocked)
+			return
+		}
+		ids, ok := vfC39Account(x, sig, false, order, beforeClose, w.lines)
+		if !ok {
+			return
+		}
+		x.Outcome("q%d steps=%v written=%v", queue, steps, ids)
+	})
+}
+
+// vfC39Account decodes the written lines and applies the accounting clause; it answers the written
+// ids (with their dropped_records stamps) for the outcome.
+func vfC39Account(x *venum.X, sig string, sampling bool, order []string, beforeClose map[string]bool, lines []string) ([]string, bool) {
+	// decode what was written
+	type wrec struct {
+		ID      string `json:"id"`
+		Dropped *int64 `json:"dropped_records"`
+	}
+	var written []wrec
+	for _, l := range lines {
+		var r wrec
+		if err := json.Unmarshal([]byte(l), &r); err != nil {
+			x.Failf(sig+":bad-json", "line %q: %v", l, err)
+			return nil, false
+		}
+		written = append(written, r)
+	}
+	pos := map[string]int{}
+	for i, id := range order {
+		pos[id] = i
+	}
+	seen := map[string]bool{}
+	for _, r := range written {
+		if _, ok := pos[r.ID]; !ok {
+			if sampling {
+				x.Failf(sig+":sampled-out-record-written", "record %q is sampled out at rate 0.5 but was written", r.ID)
+			} else {
+				x.Failf(sig+":phantom-record", "written record %q was never emitted", r.ID)
+			}
+			return nil, false
+		}
+		if seen[r.ID] {
+			x.Failf(sig+":duplicate-record", "record %q written twice", r.ID)
+		}
+		seen[r.ID] = true
+		if r.Dropped != nil && *r.Dropped <= 0 {
+			x.Failf(sig+":nonpositive-dropped", "dropped_records=%d on %q", *r.Dropped, r.ID)
+		}
+	}
+	// Accounting over the records whose emit returned before Close was
+	// called (they all went through the queue, in `order`): at every such
+	// record that was written, the dropped_records stamped so far must equal
+	// the number of earlier such records that were lost. A trailing run of
+	// losses with no later written record is excused by the statement.
+	dropOf := map[string]int64{}
+	for _, r := range written {
+		if r.Dropped != nil {
+			dropOf[r.ID] = *r.Dropped
+		}
+	}
+	var lost, cum int64
+	for _, id := range order {
+		if !beforeClose[id] {
+			continue
+		}
+		if !seen[id] {
+			lost++
+			continue
+		}
+		cum += dropOf[id]
+		if cum != lost {
+			kind := "silent-loss"
+			if cum > lost {
+				kind = "overcount"
+			}
+			x.Failf(sig+":"+kind, "at written record %q: %d earlier enqueued records were lost but dropped_records sums to %d (enqueue order %v, written %v)",
+				id, lost, cum, order, lines)
+			break
+		}
+	}
+	var ids []string
+	for _, r := range written {
+		d := ""
+		if r.Dropped != nil {
+			d = fmt.Sprintf("+%d", *r.Dropped)
+		}
+		ids = append(ids, r.ID+d)
+	}
+	return ids, true
 }
